@@ -89,3 +89,22 @@ def unique_tag_simple_defs(scn):
                 tags.setdefault(d['tag'] + sfx, []).append(('seq', i))
     return {t: v[0] for t, v in tags.items()
             if len(v) == 1 and isinstance(v[0], int) and t is not None}
+
+
+def spec_seq_view(item, mobs):
+    """ {def index: [[(role, ln, [values])...] per section]} from the Lean spec layer """
+    intern = S.Interner()
+    intern.val = item['vals']
+    return {int(k): [[[role, ln, [intern.back(v) for v in vs]] for role, ln, vs in sec]
+                     for sec in secs]
+            for k, secs in mobs.get('specSeq', {}).items()}
+
+
+def unique_tag_seq_defs(scn):
+    """ registered sequence defs whose tag is used by no other sequence def """
+    tags = {}
+    for i in {r[0] for r in scn['regs']}:
+        d = scn['defs'][i]
+        if d['type'] == 'seq':
+            tags.setdefault(d['tag'], []).append(i)
+    return {t: v[0] for t, v in tags.items() if len(v) == 1}
